@@ -784,6 +784,41 @@ def r11_6(prog, rep):
                 rv = root_var(l_)
                 if r.get("k") == "ref" and r.get("n") in tainted and (l_.get("arrow") or (rv is not None and rv.get("dk") in ("global", "slocal"))):
                     stored.append((f, l_["f"], lv(l_), nn.get("line", line)))
+    # an oid has exactly one place in the table: both lookup functions hand out nothing but `oid & (size - 1)` (or an error).  The
+    # re-hash copies entries without a collision check, which is sound only as long as nobody is parked anywhere else.
+    for fname in SLOTFN:
+        g = prog.fn(fname, DAEMON)
+        gcfg = g.cfg
+        oidp = g.params[0]["n"]
+        for b, i, x, line in gcfg.all_elems():
+            if not (isinstance(x, dict) and x.get("k") == "ret" and x.get("e") is not None):
+                continue
+            e = strip_casts(gcfg.resolve(x["e"]))
+            v = int_value(e)
+            key = "%s/returns-home-slot@%s" % (fname, line)
+            if v is not None:
+                rep.ok(rid, key, g.loc(line), "returns the constant %d (error / no slot)" % v, nontrivial=False)
+                continue
+            if e.get("k") != "ref":
+                rep.fail(rid, key, g.loc(line), "%s() returns `%s`, not the oid's home slot `oid & (size - 1)`: an entry parked elsewhere is lost "
+                         "(or collides) at the next re-hash, which copies entries to their home slots without a collision check" % (fname, show(e)[:40]))
+                continue
+            defs = []
+            for b2, i2, x2, l2 in gcfg.all_elems():
+                if not isinstance(x2, dict):
+                    continue
+                for l, kind, nn in writes(x2):
+                    if lv(l) == e["n"]:
+                        rhs = nn.get("init") if kind == "decl" else (nn.get("r") if nn.get("k") == "bin" and nn["op"] == "=" else nn)
+                        defs.append(strip_casts(gcfg.resolve(rhs)) if rhs is not None else None)
+            def home(d):
+                return isinstance(d, dict) and d.get("k") == "bin" and d["op"] == "&" and lv(strip_casts(d["l"])) == oidp
+            if defs and all(d is None or home(d) for d in defs):
+                rep.ok(rid, key, g.loc(line), "returns %s, which is only ever `%s & (size - 1)`" % (e["n"], oidp))
+            else:
+                odd = [show(d)[:40] for d in defs if d is not None and not home(d)]
+                rep.fail(rid, key, g.loc(line), "%s() returns %s, which is also defined as %s — not the oid's home slot: an entry parked elsewhere is lost "
+                         "(or collides) at the next re-hash, which copies entries to their home slots without a collision check" % (fname, e["n"], odd))
     if nsrc < 2:
         rep.broken_("rule=R11.6 expected >=2 uses of put_task_slot/get_task_slot results, found %d" % nsrc)
         return
